@@ -36,10 +36,12 @@ pub fn scenario(prop: &str) -> Scenario {
             s.mp.act_pad = 8;
             s.mp.act_block = 1;
             s.mp.act_timer = 0;
-            s.mp.counters = 0;
-            s.mp.limits = 0;
+            // a few counters and limits: a machine can then END (or be moved) by a nested internal event in the
+            // very call that scheduled its padding
+            s.mp.counters = 12;
+            s.mp.limits = 12;
             s.mp.signals = 0;
-            s.mp.ends = 3;
+            s.mp.ends = 6;
             s.mp.trans_density = 60;
             s.mp.dist = DistMode::Const;
             s.mp.prob = ProbMode::Dyadic;
